@@ -40,7 +40,7 @@ NAMES = [b"main", b"x y", b'q"q', b"{5}", b"{5+}", b"OK", b"NO", b"BYE", b"ACTIV
 
 
 def plan(tier, seed):
-    n = 20000 if tier == "quick" else 300000
+    n = 20000 if tier == "quick" else 1000000
     k = 16 if tier == "quick" else 64
     out = []
     for i, (s, e) in enumerate(split(n, k)):
